@@ -712,6 +712,81 @@ fn two_pairs(eng: &mut Eng) {
     eng.sample(|| "pairs with equal own states (1,2,3)@0 and partners (5,6,7)@0 / (11,12,13)@0: a1 reads 3, then a2 must read 6".to_string());
 }
 
+/// Operation sequences whose intermediate states are NOT read. The BFS above reaches every link
+/// state by a shortest witness history and reads every terminal after every step; a read may repair
+/// (or create) bookkeeping that is not part of the link structure - a stale partner pointer, a
+/// lazily dropped link - so what a sequence of connects and disconnects leaves behind is judged
+/// here for *every* sequence of each length (no state merging), under n + 1 observation modes:
+/// nothing is read before the end, or only terminal k is read after every step. At the end all
+/// terminals are read and the decoded link structure must equal the matching model's.
+fn unobserved(n: usize, depth: usize, eng: &mut Eng, budget: Budget) {
+    let acts: Vec<usize> = (0..n * n).collect();
+    for len in 1..=depth {
+        par_seqs(eng, acts.len(), len, budget, |seq, e| {
+            let mut tr = 0u64;
+            for mode in 0..=n {
+                let ts = fresh(n);
+                let mut st: Vec<Option<usize>> = vec![None; n];
+                let r = guard(|| -> Result<(), (usize, String)> {
+                    for (k, &a) in seq.iter().enumerate() {
+                        apply(&ts, n, a);
+                        st = model_step(&st, n, a);
+                        if mode < n {
+                            // partial observation: one terminal's three reads
+                            let i = mode;
+                            let s = <Terminal<E> as Getter<State, E>>::get(&ts[i].borrow());
+                            let _ = <Terminal<E> as Getter<Command, E>>::get(&ts[i].borrow());
+                            let _ = <Terminal<E> as Getter<TerminalData, E>>::get(&ts[i].borrow());
+                            let want = match st[i] {
+                                None => own_pos(i),
+                                Some(j) => (own_pos(i) + own_pos(j)) / 2.0,
+                            };
+                            match s {
+                                Ok(Some(d)) if d.value.position == want => {}
+                                other => return Err((k + 1, format!("terminal {} (model partner {:?}) reads {:?}, expected position {}", i, st[i], other, want))),
+                            }
+                        }
+                    }
+                    match observe(&ts) {
+                        Ok((o, _)) if o == st => Ok(()),
+                        Ok((o, _)) => Err((seq.len(), format!("links observed at the end {:?}, matching model says {:?}", o, st))),
+                        Err(m) => Err((seq.len(), m)),
+                    }
+                });
+                tr += seq.len() as u64;
+                e.checks += 1;
+                let desc = |m: &str| {
+                    format!(
+                        "n={} [{}] with {}: {}",
+                        n,
+                        seq.iter().map(|&x| act_name(n, x)).collect::<Vec<_>>().join("; "),
+                        if mode == n { "no read before the end".to_string() } else { format!("only terminal {} read after every step", mode) },
+                        m
+                    )
+                };
+                match r {
+                    Ok(Ok(())) => {}
+                    Ok(Err((k, m))) => e.violation("terminals:unobserved-sequence:wrong-links", k, || desc(&m)),
+                    Err(m) => e.violation("terminals:unobserved-sequence:panic", seq.len(), || desc(&format!("panicked: {}", m))),
+                }
+            }
+            // non-trivial = some action touches an already linked terminal
+            let mut st: Vec<Option<usize>> = vec![None; n];
+            let mut nt = false;
+            for &a in seq {
+                let rel = relation(&st, n, a);
+                nt |= rel != "both-free" && rel != "unlinked";
+                st = model_step(&st, n, a);
+            }
+            if nt {
+                e.nontrivial += 1;
+            }
+            e.outcome(h64(&(n, st)));
+            tr
+        });
+    }
+}
+
 pub fn run(ctx: &Ctx) -> Vec<Eng> {
     let max_n = if ctx.thorough { 10 } else { 6 };
     let mut e1 = Eng::new(
@@ -740,5 +815,15 @@ pub fn run(ctx: &Ctx) -> Vec<Eng> {
         "8 x 8 pair configurations x 24 read orders",
     );
     two_pairs(&mut e4);
-    vec![e1, e2, e3, e4]
+    let plan: Vec<(usize, usize)> = if ctx.thorough { vec![(2, 10), (3, 8), (4, 6), (5, 5)] } else { vec![(2, 8), (3, 6), (4, 4), (5, 3)] };
+    let mut e5 = Eng::new(
+        "c09-unobserved-sequences",
+        "every sequence (no state merging) of length 1..d over {connect(i,j), i != j; disconnect(i)} on n fresh real terminals, executed under n + 1 observation modes - nothing read before the end, or only terminal k read after every step (and compared with the matching model) - then all terminals read and the decoded link structure compared with the matching model folded over the sequence; reaches bookkeeping that reads repair or create (stale partner pointers, lazily dropped links), which the per-step-observing BFS cannot; non-trivial = some action touches an already linked terminal",
+        &format!("(n terminals, depth d) = {:?}; n^2 actions each; all lengths up to d; n + 1 observation modes", plan),
+    );
+    let budget = Budget::secs(if ctx.thorough { 1500 } else { 60 });
+    for &(n, d) in &plan {
+        unobserved(n, d, &mut e5, budget);
+    }
+    vec![e1, e2, e3, e4, e5]
 }
